@@ -1,6 +1,8 @@
 /* C17: time-step compression.  Built only with -DWITH_TS -DHAVE_TIMECMPR (harness executable szimpl_ts).
  *
- * ts <cfg> <type 0|1> <dims> <mode> <abs bits> <rel bits> <schedule> <evolution> <kind> <seed> <scale bits> <nvars>
+ * ts <cfg> <type 0|1> <dims> <mode> <abs bits> <rel bits> <schedule> <evolution> <kind> <seed> <scale bits> <nvars> [<pwr bits> <pwmask>]
+ *   pwmask   : bit v set = variable v is registered in point-wise relative mode with ratio <pwr> (the others in <mode>); such a variable is judged by
+ *              |x' - x| <= pwr*|x| (zeros exact)
  *   schedule : one letter per step: S force snapshot, T force temporal prediction, P periodic (cfg snapshotCmprStep)
  *   evolution: 0 smooth drift, 1 abrupt change half way, 2 every third step constant, 3 alternating between two fields,
  *              4 independent noise per step, 5 static field, 6 drift with a tiny-bound-hostile noise (raw fallback),
@@ -63,6 +65,7 @@ static void op_ts(int argc, char** a)
 	const char* sched = a[6]; int nsteps = (int)strlen(sched);
 	int evo = atoi(a[7]), kind = atoi(a[8]); uint64_t seed = hx(a[9]); uint64_t sb = hx(a[10]); double scale; memcpy(&scale, &sb, 8);
 	int nvars = argc > 11 ? atoi(a[11]) : 1; if (nvars > 4) nvars = 4;
+	double pwr = 0; unsigned pwmask = 0; if (argc > 13) { uint64_t pb = hx(a[12]); memcpy(&pwr, &pb, 8); pwmask = (unsigned)hx(a[13]); }
 	size_t n = computeDataLength(r[0], r[1], r[2], r[3], r[4]); int es = elem_size(ty);
 	if (init_from_cfg(cfg) != SZ_SCES) { printf("st=init-failed\n"); return; }
 	fflush(R); fflush(stdout); fflush(stderr);
@@ -74,7 +77,7 @@ static void op_ts(int argc, char** a)
 		void* bufs[4];
 		for (int v = 0; v < nvars; v++) {
 			bufs[v] = calloc(n, (size_t)es); char name[16]; snprintf(name, sizeof name, "v%d", v);
-			SZ_registerVar(v + 1, name, ty, bufs[v], mode, absb, rel, 0.0, r[0], r[1], r[2], r[3], r[4]);
+			SZ_registerVar(v + 1, name, ty, bufs[v], (pwmask >> v) & 1 ? PW_REL : mode, absb, rel, (pwmask >> v) & 1 ? pwr : 0.0, r[0], r[1], r[2], r[3], r[4]);
 		}
 		for (int k = 0; k < nsteps; k++) {
 			uint64_t len; if (!rd(p2c[0], &len, 8)) _exit(4);
@@ -85,6 +88,16 @@ static void op_ts(int argc, char** a)
 				void* ori = step_data(ty, n, evo, kind, seed, scale, k, nsteps, v);
 				double mn, mx; double e = effective_bound(ty, ori, n, mode, absb, rel, &mn, &mx);
 				struct errstat st; err_stats(ty, ori, bufs[v], n, e, mn, mx, &st);
+				if ((pwmask >> v) & 1) {      /* point-wise relative variable: exact per-element oracle, e reported = the ratio, maxerr = largest relative error */
+					memset(&st, 0, sizeof st); st.first = (size_t)-1; e = pwr;
+					for (size_t i = 0; i < n; i++) {
+						long double x = ty == SZ_FLOAT ? ((float*)ori)[i] : ((double*)ori)[i], y = ty == SZ_FLOAT ? ((float*)bufs[v])[i] : ((double*)bufs[v])[i];
+						long double d = x > y ? x - y : y - x, ax = x < 0 ? -x : x; int bad = !(d <= (long double)pwr * ax);
+						if (bad) { if (!st.viol) st.first = i; st.viol++; }
+						double rerr = ax > 0 ? (double)(d / ax) : (d > 0 ? 1e300 : 0); if (rerr > st.maxerr) st.maxerr = rerr;
+						if ((double)ax > st.amax) st.amax = (double)ax;
+					}
+				}
 				SZ_Variable* var = SZ_getVariable(v + 1);
 				uint64_t res[8]; res[0] = fnv(var->multisteps->hist_data, n * (size_t)es); res[1] = st.viol; memcpy(&res[2], &st.maxerr, 8); memcpy(&res[3], &e, 8);
 				res[4] = st.first; res[5] = res[6] = 0; memcpy(&res[7], &st.amax, 8);
@@ -101,7 +114,7 @@ static void op_ts(int argc, char** a)
 	void* bufs[4];
 	for (int v = 0; v < nvars; v++) {
 		bufs[v] = calloc(n, (size_t)es); char name[16]; snprintf(name, sizeof name, "v%d", v);
-		SZ_registerVar(v + 1, name, ty, bufs[v], mode, absb, rel, 0.0, r[0], r[1], r[2], r[3], r[4]);
+		SZ_registerVar(v + 1, name, ty, bufs[v], (pwmask >> v) & 1 ? PW_REL : mode, absb, rel, (pwmask >> v) & 1 ? pwr : 0.0, r[0], r[1], r[2], r[3], r[4]);
 	}
 	printf("steps=");
 	int dead = 0;
